@@ -164,6 +164,67 @@ impl Instant {
     }
 }
 
+impl Instant {
+    /// std semantics since 1.60: saturates at zero when `earlier` is later
+    pub fn duration_since(&self, earlier: Instant) -> SymDuration {
+        self.saturating_duration_since(earlier)
+    }
+    pub fn saturating_duration_since(&self, earlier: Instant) -> SymDuration {
+        SymDuration(SymU::select(self.0.slt(earlier.0), SymU::konst(0), self.0.wrapping_sub(earlier.0)))
+    }
+    pub fn checked_duration_since(&self, earlier: Instant) -> Option<SymDuration> {
+        if self.0.slt(earlier.0).get() {
+            None
+        } else {
+            Some(SymDuration(self.0.wrapping_sub(earlier.0)))
+        }
+    }
+    pub fn checked_add(&self, d: ::std::time::Duration) -> Option<Instant> {
+        let n = SymU::konst(d.as_nanos() as u64);
+        let r = self.0.wrapping_add(n);
+        if r.slt(self.0).get() {
+            None
+        } else {
+            Some(Instant(r))
+        }
+    }
+    pub fn checked_sub(&self, d: ::std::time::Duration) -> Option<Instant> {
+        let n = SymU::konst(d.as_nanos() as u64);
+        if self.0.slt(n).get() {
+            None
+        } else {
+            Some(Instant(self.0.wrapping_sub(n)))
+        }
+    }
+}
+impl std::ops::Sub<::std::time::Duration> for Instant {
+    type Output = Instant;
+    fn sub(self, d: ::std::time::Duration) -> Instant {
+        self.checked_sub(d).expect("overflow when subtracting duration from instant")
+    }
+}
+impl std::ops::Sub<Instant> for Instant {
+    type Output = SymDuration;
+    fn sub(self, o: Instant) -> SymDuration {
+        self.saturating_duration_since(o)
+    }
+}
+impl std::ops::AddAssign<::std::time::Duration> for Instant {
+    fn add_assign(&mut self, d: ::std::time::Duration) {
+        *self = *self + d;
+    }
+}
+impl PartialEq for SymDuration {
+    fn eq(&self, o: &SymDuration) -> bool {
+        self.0 == o.0
+    }
+}
+impl PartialOrd for SymDuration {
+    fn partial_cmp(&self, o: &SymDuration) -> Option<::std::cmp::Ordering> {
+        Some(self.0.cmp(&o.0))
+    }
+}
+
 #[derive(Clone, Copy, Debug)]
 pub struct SymDuration(pub SymU<64>);
 impl PartialEq<::std::time::Duration> for SymDuration {
